@@ -1,5 +1,6 @@
 """C16 — terminal output is delivered in order, exactly once; queue length = readable bytes.
-Structural clauses (DESIGN §5 C16): COUPLED(IOQueue chunks->length, pop->offset=0), single tty
+Structural clauses (DESIGN §5 C16): COUPLED(IOQueue chunks->length, pop->offset=0), FRONT-EXHAUSTED (front chunk popped only when
+its unread rest <= amount consumed, kept only while offset + amount < its length), single tty
 writer, consumed = written, frames_drop keeps the front chunk, poll flushes & loops while pending.
 
 Robustness: every rule that speaks about "function F" works on F with its private single-caller helpers expanded
@@ -19,10 +20,12 @@ CHUNK_WRITERS = r"(impl std::io::Write for std::vec::Vec<u8, A>>::(write|write_a
 
 CLAIM = {
     "text": "Static necessary conditions of in-order exactly-once delivery, decided on MIR for every path of the anchored functions: "
-            "IOQueue content changes are coupled with `length`/`offset` updates, the tty is written only from poll's consume_with "
+            "IOQueue content changes are coupled with `length`/`offset` updates, the front chunk is removed only on paths whose branch conditions entail "
+            "that it is exhausted (len(front) - offset <= amount) and kept only when offset + amount < len(front) (FRONT-EXHAUSTED, linear path conditions), "
+            "the tty is written only from poll's consume_with "
             "closure, the consumed amount is the tty write's return value, frames_drop keeps the chunk in flight, poll flushes first "
             "and loops while output is pending. Kernel schedules and chunk-granularity histories are not decided.",
-    "technique": "MIR CFG/effect rules: coupled-update (path) analysis, who-may-call, value-origin dataflow, dominators",
+    "technique": "MIR CFG/effect rules: coupled-update (path) analysis, path-wise linear evaluation of guards, who-may-call, value-origin dataflow, dominators",
     "design_ref": "DESIGN.md §5 C16",
 }
 
@@ -331,18 +334,296 @@ def keeps_front(body, cfg, bb, t, chunks):
     return False, None
 
 
+# ------------------------------------------------------------------------------------------------
+# FRONT-EXHAUSTED: path-wise symbolic evaluation of an IOQueue method over linear forms
+# ------------------------------------------------------------------------------------------------
+OFFSET = "arg1.offset"          # atom: self.offset on entry
+FRONT = "len(front)"            # atom: full length of the front chunk on entry (0 when the queue holds no chunk)
+_FRONT_OPT = r"VecDeque::(?:front|front_mut)\(arg1\.chunks\)|VecDeque::(?:get|get_mut)\(arg1\.chunks, 0\)"
+_FRONT_REF = (r"(?:(?:%s)@Some\.0|Option::(?:unwrap|expect|unwrap_unchecked)\((?:%s)(?:, [^()]*)?\)|Index(?:Mut)?::index(?:_mut)?\(arg1\.chunks, 0\))" % (_FRONT_OPT, _FRONT_OPT))
+_WRAP = r"(?:Vec::as_slice|Vec::as_mut_slice|Deref::deref|DerefMut::deref_mut|AsRef::as_ref|Borrow::borrow)"
+FRONT_WHOLE_RX = r"(?:%s\()*%s\)*" % (_WRAP, _FRONT_REF)
+FRONT_REST_RX = r"IOQueue::as_slice\(arg1\)|Index::index\((?:%s\()*%s\)*, RangeFrom\{start: arg1\.offset\}\)" % (_WRAP, _FRONT_REF)
+LEN_FN_RX = r"(Vec::<T, A>|slice::<impl \[T\]>)::len$"
+FRONT_REMOVING = r"VecDeque::<T, A>::(pop_front|pop_back|drain|clear|truncate|retain|retain_mut|split_off|remove|swap_remove_back|swap_remove_front)$"
+
+
+def _balanced(s):
+    d = 0
+    for ch in s:
+        d += ch == "("
+        d -= ch == ")"
+        if d < 0:
+            return False
+    return d == 0
+
+
+def lf_add(a, b, k=1):
+    out = dict(a)
+    for x, c in b.items():
+        out[x] = out.get(x, 0) + k * c
+    return {x: c for x, c in out.items() if c != 0 or x == ""}
+
+
+def lf_text(a):
+    parts = []
+    for x in sorted(a, key=lambda s: (s == "", s)):
+        c = a[x]
+        if c == 0:
+            continue
+        parts.append(("%+d" % c) if x == "" else ("%s%s" % ({1: "+", -1: "-"}.get(c, "%+d*" % c), x)))
+    return " ".join(parts).lstrip("+") or "0"
+
+
+def lf_implies(cons, goal):
+    """Do the path constraints (each `form <= c`, all atoms being unsigned quantities) entail goal = (form, d), i.e. `form <= d`?
+    Sufficient test, no search: some constraint — or the empty one, or the sum of two — differs from the goal only by terms that
+    cannot be positive."""
+    g, d = goal
+    cands = [({}, 0)] + list(cons) + [(lf_add(a, b), ca + cb) for i, (a, ca) in enumerate(cons) for (b, cb) in cons[i + 1:]]
+    for f, c in cands:
+        diff = lf_add(g, f, -1)
+        if all(v <= 0 for x, v in diff.items() if x != "") and c + diff.get("", 0) <= d:
+            return True
+    return False
+
+
+def len_fn(prog, body, f):
+    """is the function value `f` (fn item or closure) `|chunk| chunk.len()`?"""
+    if f.get("k") == "const":
+        fn = f["c"].get("fn")
+        return bool(fn and re.search(LEN_FN_RX, fn["path"]))
+    d = value_def(body, f)
+    if d and d[0] == "agg" and d[1].get("ak") == "closure":
+        cb = prog.body(d[1]["def"])
+        if cb is None:
+            return False
+        rets = [s for i, si, s in cb.assigns() if s["place"]["l"] == 0 and not s["place"]["p"]]
+        defs0 = cb.defs_of(0)
+        if len(defs0) != 1:
+            return False
+        e = expr(cb, {"k": "copy", "place": {"l": 0, "p": []}})
+        return bool(re.fullmatch(r"(?:Vec|slice)::len\((?:%s\()*arg2\)*\)" % _WRAP, e)) and _balanced(e)
+    return False
+
+
+class PathEval:
+    """Forward evaluation of one acyclic path of an IOQueue method (helpers expanded) over linear forms of the entry values
+    len(front chunk), self.offset and opaque unsigned terms; collects the branch conditions as linear constraints."""
+
+    def __init__(self, prog, body):
+        self.prog, self.b = prog, body
+        self.env = {}           # local -> linear form
+        self.cmp = {}           # local -> (op, lhs form, rhs form)
+        self.dis = {}           # local -> canonical term of the place whose discriminant it holds
+        self.off = {OFFSET: 1}  # current value of self.offset
+        self.cons = []          # (form, c): form <= c
+        self.removed = False    # a chunk removal that may take the front chunk has been executed
+        self.events = []
+
+    def clone(self):
+        o = PathEval(self.prog, self.b)
+        o.env, o.cmp, o.dis, o.off = dict(self.env), dict(self.cmp), dict(self.dis), dict(self.off)
+        o.cons, o.removed, o.events = list(self.cons), self.removed, list(self.events)
+        return o
+
+    def is_offset(self, place):
+        return resolve_place(self.b, place) == "(*_1).offset"
+
+    def val(self, op):
+        if op["k"] == "const":
+            v = op_const_int(op)
+            return {"": v} if v is not None else {expr(self.b, op): 1}
+        pl = op["place"]
+        if self.is_offset(pl):
+            return dict(self.off)
+        l, pr = pl["l"], [e for e in pl["p"] if e["k"] != "deref"]
+        if l in self.env and (not pr or (len(pr) == 1 and pr[0]["k"] == "field" and pr[0].get("i", 0) == 0 and pr[0].get("name") in ("0", None))):
+            return dict(self.env[l])
+        e = expr(self.b, op)
+        if re.fullmatch(r"\d+", e):
+            return {"": int(e)}
+        return {e: 1}
+
+    def stmt(self, s):
+        if s["k"] != "assign":
+            return
+        pl, rv = s["place"], s["rv"]
+        if pl["p"]:
+            if self.is_offset(pl):
+                v = self.val(rv["a"]) if rv["k"] == "use" else {"?offset": 1}
+                self.off = v
+                self.events.append(("offset", v, s.get("line", 0)))
+            return
+        l = pl["l"]
+        self.env.pop(l, None), self.cmp.pop(l, None), self.dis.pop(l, None)
+        k = rv["k"]
+        if k == "use":
+            a = rv["a"]
+            if a["k"] != "const" and not a["place"]["p"]:
+                sl = a["place"]["l"]
+                if sl in self.cmp:
+                    self.cmp[l] = self.cmp[sl]
+                if sl in self.dis:
+                    self.dis[l] = self.dis[sl]
+            self.env[l] = self.val(a)
+        elif k == "bin":
+            op = rv["op"].replace("WithOverflow", "").replace("Unchecked", "")
+            a, b = self.val(rv["a"]), self.val(rv["b"])
+            if op == "Add":
+                self.env[l] = lf_add(a, b)
+            elif op == "Sub":
+                self.env[l] = lf_add(a, b, -1)     # an underflow panics / is out of scope
+            elif op in ("Gt", "Lt", "Ge", "Le", "Eq", "Ne"):
+                self.cmp[l] = (op, a, b)
+            elif op == "Mul" and set(a) <= {""}:
+                self.env[l] = {x: c * a.get("", 0) for x, c in b.items()}
+            elif op == "Mul" and set(b) <= {""}:
+                self.env[l] = {x: c * b.get("", 0) for x, c in a.items()}
+        elif k == "un" and rv["op"] == "Not":
+            a = rv["a"]
+            if a["k"] != "const" and not a["place"]["p"] and a["place"]["l"] in self.cmp:
+                op, x, y = self.cmp[a["place"]["l"]]
+                self.cmp[l] = ({"Eq": "Ne", "Ne": "Eq", "Gt": "Le", "Le": "Gt", "Lt": "Ge", "Ge": "Lt"}[op], x, y)
+        elif k == "discr":
+            self.dis[l] = place_expr_of(self.b, rv["place"])
+
+    def call(self, t):
+        """effect of a call terminator on its destination"""
+        dest = t["dest"]
+        nm = callee_name(t) or ""
+        b = self.b
+        if dest["p"]:
+            return
+        l = dest["l"]
+        self.env.pop(l, None), self.cmp.pop(l, None), self.dis.pop(l, None)
+        args = t["args"]
+        if re.search(LEN_FN_RX, nm) and args:
+            e = expr(b, args[0])
+            if re.fullmatch(FRONT_WHOLE_RX, e) and _balanced(e):
+                self.env[l] = {FRONT: 1}
+                return
+            if re.fullmatch(FRONT_REST_RX, e) and _balanced(e):
+                self.env[l] = lf_add({FRONT: 1}, self.off, -1)
+                return
+        if re.search(r"Option::<T>::(unwrap_or|unwrap_or_default)$", nm) and args:
+            d = value_def(b, args[0])
+            zero = len(args) == 1 or self.val(args[1]) == {"": 0}
+            if zero and d and d[0] == "call" and call_matches(d[1], r"Option::<T>::map$") and \
+                    re.fullmatch(_FRONT_OPT, expr(b, d[1]["args"][0])) and len_fn(self.prog, b, d[1]["args"][1]):
+                self.env[l] = {FRONT: 1}
+                return
+        if re.search(r"Option::<T>::map_or$", nm) and len(args) == 3:
+            if self.val(args[1]) == {"": 0} and re.fullmatch(_FRONT_OPT, expr(b, args[0])) and len_fn(self.prog, b, args[2]):
+                self.env[l] = {FRONT: 1}
+                return
+        if re.search(r"Option::<T>::map_or_else$", nm):
+            pass
+        self.env[l] = {expr(b, {"k": "copy", "place": dest}): 1}
+
+    def edge(self, t, y):
+        """constraint contributed by leaving a switch towards block y"""
+        if t["k"] != "switch" or t["d"]["k"] == "const" or t["d"]["place"]["p"]:
+            return
+        l = t["d"]["place"]["l"]
+        hit = [v for v, tg in zip(t["vals"], t["targets"]) if tg == y]
+        other = t["otherwise"] == y
+        if (hit and other) or len(hit) > 1:
+            return
+        if l in self.cmp and t["vals"] == ["0"]:
+            op, a, b = self.cmp[l]
+            if hit:
+                op = {"Eq": "Ne", "Ne": "Eq", "Gt": "Le", "Le": "Gt", "Lt": "Ge", "Ge": "Lt"}[op]
+            ab, ba = lf_add(a, b, -1), lf_add(b, a, -1)
+
+            def le(f, c):       # f <= c, constant part moved to the right
+                f = dict(f)
+                k = f.pop("", 0)
+                self.cons.append((f, c - k))
+            if op == "Gt":
+                le(ba, -1)
+            elif op == "Ge":
+                le(ba, 0)
+            elif op == "Lt":
+                le(ab, -1)
+            elif op == "Le":
+                le(ab, 0)
+            elif op == "Eq":
+                le(ab, 0), le(ba, 0)
+        elif l in self.dis and re.fullmatch(_FRONT_OPT, self.dis[l]):
+            if hit:
+                variant = hit[0]
+            elif len(t["vals"]) == 1 and t["vals"][0] in ("0", "1"):
+                variant = "1" if t["vals"][0] == "0" else "0"
+            else:
+                return
+            if variant == "0":      # no front chunk: its length is 0 by definition
+                self.cons.append(({FRONT: 1}, 0))
+
+
+def place_expr_of(body, place):
+    from ..flow import place_expr
+    return place_expr(body, place)
+
+
+def front_paths(prog, body, limit=4000):
+    """all acyclic entry->return paths of the body (unwind and panic edges excluded), each evaluated by PathEval;
+    yields the final evaluator of each path; raises OverflowError when there are too many"""
+    out = []
+    n = [0]
+
+    def succs(t):
+        k = t["k"]
+        if k == "goto":
+            return [t["t"]]
+        if k == "switch":
+            return list(dict.fromkeys(list(t["targets"]) + [t["otherwise"]]))
+        if k in ("call", "assert", "drop"):
+            return [t["t"]] if t.get("t", -1) is not None and t.get("t", -1) >= 0 else []
+        return []
+
+    def go(bb, ev, seen):
+        n[0] += 1
+        if n[0] > limit:
+            raise OverflowError
+        blk = body.blocks[bb]
+        for s in blk["stmts"]:
+            ev.stmt(s)
+        t = blk["term"]
+        if t["k"] == "return":
+            ev.events.append(("return", dict(ev.off), bb))
+            out.append(ev)
+            return
+        if t["k"] == "call":
+            if call_matches(t, FRONT_REMOVING) and t["args"] and arg_place(body, t, 0) == "(*_1).chunks":
+                ev.events.append(("remove", bb, t, list(ev.cons), dict(ev.off), ev.removed))
+            ev.call(t)
+        nx = [y for y in succs(t) if y not in seen and not body.blocks[y]["cleanup"]]
+        for i, y in enumerate(nx):
+            e2 = ev.clone() if i < len(nx) - 1 else ev
+            e2.edge(t, y)
+            go(y, e2, seen | {y})
+
+    go(0, PathEval(prog, body), {0})
+    return out
+
+
 def run(ctx):
     prog = ctx.prog
     ctx.explanation = (
         "Decides structural necessary conditions of C16 from MIR: (a) in every IOQueue method each operation that removes or adds "
         "bytes of `chunks` lies only on paths that also assign `length`, `length` is only ever updated relative to its old value, and "
-        "popping the front chunk resets `offset`; (b) the only "
+        "popping the front chunk resets `offset`; (a2) FRONT-EXHAUSTED: every path of an IOQueue method that removes the front chunk carries branch conditions "
+        "which, as linear inequalities over {len(front chunk), offset, amount} (len(as_slice()) = len(front) - offset; helpers expanded; either branch polarity, "
+        "match/if/early return, hoisted locals), entail len(front) - offset <= amount, and every path that advances offset and keeps the chunk entails "
+        "new offset < len(front) - otherwise bytes of a partially written chunk are dropped, or an exhausted chunk stays queued; (b) the only "
         "body that writes to the tty fd is the closure handed to consume_with in UnixTerminal::poll (execute/Write::write/image "
         "handlers/position write only to write_queue); (c) the amount consumed from the queue is the value returned by the tty write; "
         "(d) frames_drop keeps the front chunk (every removal starts at a constant index >= 1); (e) poll flushes first and keeps looping while the "
         "queue is non-empty. Private single-caller helpers are expanded into their caller before a rule looks at it. "
         "NOT decided: kernel schedules, whole-chunk granularity while the last chunk is open.")
     ctx.assume("MIR of the dev profile is the semantics of the code; unwind paths are out of scope")
+    ctx.assume("FRONT-EXHAUSTED reads IOQueue::as_slice() as front_chunk[offset..] (empty without a chunk); arithmetic overflow panics are out of scope")
 
     # ---------------- (a) COUPLED -------------------------------------------------------------
     ctx.rule("COUPLED-length", "content-changing op on IOQueue.chunks lies only on paths that assign IOQueue.length; length is updated relative to its old value", floor=4)
@@ -431,6 +712,101 @@ def run(ctx):
             if bad:
                 ctx.violation("COUPLED-offset", origin(b, i), "offset-advance",
                               "offset advanced on a path that does not reduce length", sites=["%s:%d" % (b.file, s["line"])])
+
+    # ---------------- (a2) FRONT-EXHAUSTED ----------------------------------------------------------
+    ctx.rule("FRONT-EXHAUSTED", "the front chunk leaves IOQueue.chunks only when it is exhausted: on every path of an IOQueue method that reaches a removal which may take "
+                                "chunk 0 (pop_front, or any removal not proven to start at index >= 1) the branch conditions entail len(front) - offset <= amount consumed; "
+                                "on every path that keeps the chunk and advances offset the conditions entail new offset < len(front) (as_slice stays non-empty and in bounds). "
+                                "Conditions are evaluated path-wise as linear inequalities over {len(front), offset, amount}; len(as_slice()) counts as len(front) - offset", floor=2)
+    n_pop = 0
+    for b0 in bodies:
+        hs = hosts(prog, b0.path)
+        if hs != {b0.path} and all((prog.body(h) is not None and (prog.body(h).closure_root or h) in ioq_paths) for h in hs):
+            continue
+        b = inl(prog, b0.path, keep=r"^common::IOQueue::as_slice$") or b0
+        touches = any(call_matches(t, FRONT_REMOVING) and t["args"] and arg_place(b, t, 0) == "(*_1).chunks" for bb, t in b.calls()) \
+            or any(not (si != "term" and s.get("rv", {}).get("k") == "use" and const_int(b, s["rv"]["a"]) == 0) for (i, si, rp, s) in writes_to_field(b, r"^\(\*_1\)\.offset$"))
+        if not touches:
+            continue
+        cfg = b.cfg()
+        live = {i for i, blk in enumerate(b.blocks) if not blk["cleanup"]}
+        in_loop = set()
+        for h, lb in cfg.loops().items():
+            in_loop |= set(lb)
+        sensitive = {i for (i, si, rp, s) in writes_to_field(b, r"^\(\*_1\)\.offset$")}
+        for bb, t in b.calls():
+            if call_matches(t, FRONT_REMOVING) and t["args"] and arg_place(b, t, 0) == "(*_1).chunks" and \
+                    (callee_name(t).endswith("pop_front") or not keeps_front(b, cfg, bb, t, "arg1.chunks")[0]):
+                sensitive.add(bb)
+        if sensitive & in_loop & live:
+            ctx.anchor("FRONT-EXHAUSTED", "%s/loop" % b0.path, "%s removes chunks or advances offset inside a loop: the exhaustion condition is not decided for loops" % b0.path)
+            continue
+        try:
+            paths = front_paths(prog, b)
+        except OverflowError:
+            ctx.anchor("FRONT-EXHAUSTED", "%s/paths" % b0.path, "too many paths in %s" % b0.path)
+            continue
+        # the amount consumed: the one linear form by which offset is advanced in this method (0 when it never is)
+        deltas = {}
+        for ev in paths:
+            for e in ev.events:
+                if e[0] == "offset" and e[1] != {"": 0}:
+                    d = lf_add(e[1], {OFFSET: 1}, -1)
+                    deltas[lf_text(d)] = d
+        if len(deltas) > 1:
+            ctx.anchor("FRONT-EXHAUSTED", "%s/amount" % b0.path, "offset is advanced by different amounts (%s): consumed amount not identified" % sorted(deltas))
+            continue
+        amount = next(iter(deltas.values())) if deltas else {"": 0}
+        seen_keys = set()
+        for ev in paths:
+            removed_before = False
+            popped = False
+            for e in ev.events:
+                if e[0] == "remove":
+                    _, bb, t, cons, off, _r = e
+                    nm = callee_name(t).split("::")[-1]
+                    if nm != "pop_front":
+                        ok, k = keeps_front(b, cfg, bb, t, "arg1.chunks")
+                        if ok:
+                            continue
+                    n_pop += 1
+                    popped = True
+                    # remaining bytes of the front chunk <= amount consumed:  len(front) - offset - amount <= 0
+                    goal = lf_add(lf_add({FRONT: 1}, {OFFSET: 1}, -1), amount, -1)
+                    gk = goal.pop("", 0)
+                    proven = (not removed_before) and nm == "pop_front" and lf_implies(cons, (goal, -gk))
+                    removed_before = True
+                    guard = " && ".join("%s <= %d" % (lf_text(f), c) for f, c in cons) or "true"
+                    ik = (origin(b, bb), nm, guard, proven)
+                    if ik not in seen_keys:
+                        seen_keys.add(ik)
+                        ctx.instance("FRONT-EXHAUSTED", {"fn": origin(b, bb), "op": nm, "path_condition": guard[:200], "required": "%s <= %d" % (lf_text(goal), -gk),
+                                                         "proven": proven, "site": "%s:%d" % (b.file, t["line"])})
+                    if not proven:
+                        ctx.violation("FRONT-EXHAUSTED", origin(b, bb), nm + "-guard",
+                                      "%s removes the front chunk on a path whose conditions (%s) do not entail that it is exhausted (%s <= %d): after partial writes the unsent rest of "
+                                      "the chunk is dropped, bytes never reach the tty" % (origin(b, bb), guard[:160], lf_text(goal), -gk), sites=["%s:%d" % (b.file, t["line"])])
+                elif e[0] == "return" and not popped:
+                    off = e[1]
+                    if off == {OFFSET: 1}:
+                        continue
+                    # the chunk stays and offset moved: new offset < len(front)
+                    goal = lf_add(off, {FRONT: 1}, -1)
+                    gk = goal.pop("", 0)
+                    proven = lf_implies(ev.cons, (goal, -1 - gk))
+                    guard = " && ".join("%s <= %d" % (lf_text(f), c) for f, c in ev.cons) or "true"
+                    site = "%s:%d" % (b.file, max([x[2] for x in ev.events if x[0] == "offset"] or [0]))
+                    ik = (b0.path, "keep", guard, proven)
+                    if ik not in seen_keys:
+                        seen_keys.add(ik)
+                        ctx.instance("FRONT-EXHAUSTED", {"fn": b0.path, "op": "offset advance, chunk kept", "path_condition": guard[:200],
+                                                         "required": "%s <= %d" % (lf_text(goal), -1 - gk), "proven": proven, "site": site})
+                    if not proven:
+                        ctx.violation("FRONT-EXHAUSTED", b0.path, "keep-guard",
+                                      "%s advances offset to %s and keeps the front chunk on a path whose conditions (%s) do not entail offset < len(front): the queue keeps an "
+                                      "exhausted chunk (empty as_slice, poll spins / later bytes are delayed) or slices out of bounds" % (b0.path, lf_text(off), guard[:160]), sites=[site])
+    if n_pop == 0:
+        ctx.anchor("FRONT-EXHAUSTED", "IOQueue/pop_front", "no IOQueue method removes the front chunk: the consume path was not recognised")
 
     # ---------------- (b) WHO-CALLS -----------------------------------------------------------
     ctx.rule("WHO-WRITES-TTY", "bodies that can write to a file descriptor: only Tty::write, the waker closure; Tty::write only from poll's consume_with closure", floor=3)
